@@ -28,7 +28,7 @@ Print Assumptions C10_attempts_no_option.
 (* without bound only if N is negative: n failing outcomes give n attempts, for every n *)
 Theorem C10_attempts_unbounded_when_negative : forall detect c o s n,
   hooks_keep_attempt (ro_hooks o) -> r_attempt s = 0%Z -> (ro_max o < 0)%Z -> ro_conds o = [] ->
-  length (res_wires (do_loop detect c (Some o) 0 s (repeat (mkAin (OErr 1 false) []) n))) = n.
+  length (res_wires (do_loop detect c (Some o) 0 s (repeat (mkAin (OErr 1 false) [] false) n))) = n.
 Proof. exact attempts_unbounded_when_negative. Qed.
 Print Assumptions C10_attempts_unbounded_when_negative.
 
@@ -50,7 +50,8 @@ Print Assumptions C10_attempts_exact.
 Theorem C10_continues_iff : forall o k a,
   continues o k a = true <->
   first_some (a_after a) = None /\ is_cancelled (a_out a) = false /\
-  (ro_max o < 0 \/ k < ro_max o)%Z /\ retry_wanted (ro_conds o) (view_of (a_out a)).
+  (ro_max o < 0 \/ k < ro_max o)%Z /\ retry_wanted (ro_conds o) (view_of (a_out a)) /\
+  a_wait_cancel a = false.
 Proof. exact continues_iff. Qed.
 Print Assumptions C10_continues_iff.
 
@@ -70,10 +71,26 @@ Theorem C10_conditions_last_to_first : forall cs v,
 Proof. exact need_retry_calls. Qed.
 Print Assumptions C10_conditions_last_to_first.
 
+(* the context ends while the retry is being prepared (hooks, interval function, the wait - a
+   zero-length one too, /repo f83e984): no further attempt; the call reports the last attempt's
+   response with the context's error; that retry's hooks and interval function have run *)
+Theorem C10_wait_cancel_ends_the_retries : forall detect c o k s a rest,
+  a_wait_cancel a = true ->
+  length (res_wires (do_loop detect c (Some o) k s (a :: rest))) = 1%nat /\
+  (first_some (a_after a) = None -> hard_stop o (r_attempt (after_send (prepare detect c s))) a = false ->
+   fst (need_retry (ro_conds o) (view_of (a_out a))) = true ->
+   res_final (do_loop detect c (Some o) k s (a :: rest)) = mkView (v_status (view_of (a_out a))) (Some 3%Z) /\
+   res_end (do_loop detect c (Some o) k s (a :: rest)) = EndNormal /\
+   length (res_hooks (do_loop detect c (Some o) k s (a :: rest))) = length (ro_hooks o) /\
+   length (res_intervals (do_loop detect c (Some o) k s (a :: rest))) = 1%nat).
+Proof. exact wait_cancel_ends_the_retries. Qed.
+Print Assumptions C10_wait_cancel_ends_the_retries.
+
 (* ---------- hooks and interval function: once per retry, with the attempt number ---------- *)
 
 Theorem C10_hooks_once_per_retry : forall detect c o s ins,
   hooks_keep_attempt (ro_hooks o) -> r_attempt s = 0%Z ->
+  Forall (fun a => a_wait_cancel a = false) ins ->
   let r := do_loop detect c (Some o) 0 s ins in
   res_end r = EndNormal ->
   res_hooks r =
@@ -85,6 +102,7 @@ Print Assumptions C10_hooks_once_per_retry.
 
 Theorem C10_interval_once_per_retry : forall detect c o s ins,
   hooks_keep_attempt (ro_hooks o) -> r_attempt s = 0%Z ->
+  Forall (fun a => a_wait_cancel a = false) ins ->
   let r := do_loop detect c (Some o) 0 s ins in
   res_end r = EndNormal ->
   res_intervals r =
@@ -300,6 +318,7 @@ Print Assumptions C10_unreplayable_never_partial.
 
 Theorem C10_final_is_last_attempt : forall detect c o s ins,
   hooks_keep_attempt (ro_hooks o) -> r_attempt s = 0%Z ->
+  Forall (fun a => a_wait_cancel a = false) ins ->
   let r := do_loop detect c (Some o) 0 s ins in
   res_end r = EndNormal ->
   exists a, nth_error ins (pred (length (res_wires r))) = Some a /\
@@ -385,6 +404,7 @@ Print Assumptions C10_reexecution_exact.
 
 Theorem C10_reexecution_hooks_from_one : forall detect c o s ins,
   hooks_keep_attempt (ro_hooks o) -> refused (Some o) (set_attempt s 0) = false ->
+  Forall (fun a => a_wait_cancel a = false) ins ->
   let r := run_exec detect c true (Some o) s ins in
   res_end r = EndNormal ->
   res_hooks r =
@@ -406,7 +426,7 @@ Print Assumptions C10_stale_counter_refuted.
    for THAT attempt, so the result is never an earlier attempt's response *)
 Theorem C10_wrapper_error_is_the_attempts_error : forall s e,
   fst (need_retry [] (view_of (OStatusErr s e))) = true /\
-  final_view (mkAin (OStatusErr s e) []) = mkView (Some s) (Some e).
+  final_view (mkAin (OStatusErr s e) [] false) = mkView (Some s) (Some e).
 Proof. exact wrapper_error_is_the_attempts_error. Qed.
 Print Assumptions C10_wrapper_error_is_the_attempts_error.
 
